@@ -1,16 +1,46 @@
 import vlib
 
+# coq text of a failing case -> True iff Spec.classify_case says it is exactly the profile-pass defect class
+_PASS_CLASS = {}
+
+def _install_classifier():
+    """After the main evaluation, evaluate Spec.classify_case (inside Coq) on the cases the oracle rejected.
+    A case is the known profile-pass finding only if the tree was probed unfixed, the UNFIXED model equals the
+    implementation's chains, a profile holds a Pass rule, and every failing packet is one that reaches the
+    profiles by the reference and on which the chains of the FIXED model give the reference result (Spec.v).
+    Local helper: wraps vlib.coq_eval_cases for this run only."""
+    orig = vlib.coq_eval_cases
+    def wrapped(ctx, imports, checker, cases, **kw):
+        res, log = orig(ctx, imports, checker, cases, **kw)
+        if checker == CFG["checker"]:
+            bad = [i for (i, a, o) in res if not o]
+            if bad:
+                sub = [cases[i] for i in bad]
+                r2, _ = orig(ctx, imports, "classify_case", sub, **kw)
+                for (j, is_class, _o) in r2:
+                    _PASS_CLASS[sub[j]] = is_class
+        return res, log
+    vlib.coq_eval_cases = wrapped
+    return orig
+
+def classify(case_line):
+    tags = case_line.get("tags", [])
+    if (_PASS_CLASS.get(case_line.get("coq")) and "variant:profile-pass-unfixed" in tags
+            and "profile-has-pass-rule" in tags):
+        return "profile-pass-rule-stale-pass-mark"
+    return None
+
 CFG = dict(
     imports=["From Verif.Common Require Import Packet PolicyRef Ipt.", "From Verif.C08 Require Import Model.",
              "From Verif.C09 Require Import Model Spec.", "Open Scope string_scope."],
     checker="check_case",
-    n=dict(quick=160, thorough=3000),
-    shard=20,
+    n=dict(quick=120, thorough=3000),
+    shard=15,
     deps=["Common", "C08"],
-    rule="generated endpoints: 0-4 tiers (default action Deny / Pass / unset) x 0-12 policies per tier (GNP, NP, KNP and the three staged "
+    rule="2 corpus cases (minimal profile-pass witness, iptables and nftables) + generated endpoints: 0-4 tiers (default action Deny / Pass / unset) x 0-12 policies per tier (GNP, NP, KNP and the three staged "
          "kinds; 22% of cases have tiers of 5-12 policies so that group chains cross the 5-policy return stride once or twice), policies "
          "split into groups at random (including all-staged, single-policy and empty groups), 0-3 rules per policy and direction, "
-         "0-3 profiles, workload endpoints (admin up/down, VXLAN/IPIP from workloads allowed or not) and host endpoints (failsafe jump), "
+         "0-3 profiles (30% of cases allow Pass rules inside profiles), workload endpoints (admin up/down, VXLAN/IPIP from workloads allowed or not) and host endpoints (failsafe jump), "
          "ingress and egress, IPv4 and IPv6, iptables and nftables, 4 mark layouts, flow logs on/off, DROP/REJECT, filter allow action "
          "ACCEPT/RETURN, conntrack-invalid rule on/off; rules over a small universe of addresses/CIDRs/ports/IP sets with at most two "
          "positive match blocks (the C08 scratch-bit finding needs three); per case up to 40 probe packets: one aimed at each rule plus a "
@@ -22,6 +52,7 @@ CFG = dict(
              "harness/C09/cmd/parse.go: text->AST grammar (C08's, plus jump/goto, conntrack state, NOTRACK)",
              "hand-written model coq/theories/C09/Model.v (+ C08/Model.v render_rule) tied to felix/rules/endpoints.go and policy.go by this "
              "correspondence run (structural equality of every chain)"],
+    classify=classify,
     assumptions=["IP set contents enter as an oracle set-id -> member -> bool",
                  "the drop mark bit is clear when the packet enters the endpoint chain (Felix's static chains clear Calico's marks on entry; "
                  "the endpoint chain itself only clears accept and pass)",
@@ -30,11 +61,19 @@ CFG = dict(
                  "blocks on the pinned tree and for all rules with fixes/C08-scratch-bit.patch",
                  "chain names are distinct (hash collisions of GetLengthLimitedID / group UIDs excluded)",
                  "QoS controls (packet rate / connection limits) are not rendered (qosControls = nil)",
-                 "failsafe chains are empty (no failsafe ports configured)"],
+                 "failsafe chains are empty (no failsafe ports configured)",
+                 "the model variant (ec_profile_fix) is the one the driver probes from the tree: on the pinned tree profile chains are entered "
+                 "with a possibly stale pass mark and c09_endpoint_verdict excludes Pass rules inside profiles "
+                 "(c09_profile_pass_refuted_unfixed; oracle failures of exactly that class are the known finding "
+                 "profile-pass-rule-stale-pass-mark); with fixes/C09-profile-pass-mark.patch there is no restriction"],
 )
 
 def run(ctx):
-    return vlib.standard_flow(ctx, CFG)
+    orig = _install_classifier()
+    try:
+        return vlib.standard_flow(ctx, CFG)
+    finally:
+        vlib.coq_eval_cases = orig
 
 MANIFEST = dict(
     category="proof",
